@@ -56,6 +56,9 @@ structure Cfg where
   nullDelete : Bool := false
   modTracker : Bool := false
   txChanges : Bool := false
+  /-- `(version table id, position among its non-key columns)` of the polymorphic discriminator
+  columns: `NullDeletePlugin` leaves them (a row without discriminator could not be loaded) -/
+  nullKeep : List (Nat × Nat) := []
   /-- association tables registered in `manager.association_tables` -/
   assocTables : List Nat := []
 deriving Repr, Inhabited
@@ -193,11 +196,15 @@ def tableFlags (cols : List (Option Nat)) (changed : List Bool) (deleted : Bool)
     | none => false
     | some i => (changed[i]?).getD false || deleted)
 
+/-- values of a DELETE version under `NullDeletePlugin`: NULL everywhere except the discriminator -/
+def nullVals (cfg : Cfg) (tid : Nat) (cols : List (Option Nat)) (vals : List Val) : List Val :=
+  (tableVals cols vals).zipIdx.map (fun vj => if cfg.nullKeep.contains (tid, vj.2) then vj.1 else none)
+
 /-- `process_operation` for one table of the hierarchy -/
 def writeTable (cfg : Cfg) (t : VTable TKey) (T : Nat) (e : OpEntry)
     (tc : Nat × List (Option Nat)) : VTable TKey :=
   let key : TKey := (tc.1, e.pk)
-  let vals := if cfg.nullDelete && e.op = .delete then tc.2.map (fun _ => none)
+  let vals := if cfg.nullDelete && e.op = .delete then nullVals cfg tc.1 tc.2 e.vals
               else tableVals tc.2 e.vals
   let mods := if cfg.modTracker then tableFlags tc.2 e.changed (e.op = .delete) else []
   match cfg.strategy with
